@@ -275,6 +275,43 @@ func (p *vpPair) inUse(s *Session) (slices int) {
 	return
 }
 
+// integrity walks every free list of the shared buffer manager at a quiescent point: size within [1, cap], the chain from
+// head has exactly `size` distinct slots, all inside the region at slot boundaries, and ends at tail. A buffer recycled
+// twice by a layer above the allocator (double push) shows up as size > cap, a repeated slot, or a chain that does not
+// reach tail. Returns "" when everything is intact. Never panics on garbage.
+func (p *vpPair) integrity() string {
+	for ci, l := range p.A.bufferManager.lists {
+		size, cp := int(*l.size), int(*l.cap)
+		stride := int(*l.capPerBuffer) + bufferHeaderSize
+		if size < 1 || size > cp {
+			return fmt.Sprintf("free list %d: size %d outside [1, cap %d]", ci, size, cp)
+		}
+		seen := map[uint32]bool{}
+		off := *l.head
+		for i := 0; i < size; i++ {
+			if int(off)%stride != 0 || int(off)+bufferHeaderSize > len(l.bufferRegion) || int(off)/stride >= cp {
+				return fmt.Sprintf("free list %d: slot offset %d (element %d of the chain) is not a slot of the region (stride %d, cap %d)", ci, off, i, stride, cp)
+			}
+			if seen[off] {
+				return fmt.Sprintf("free list %d: slot %d is on the free chain twice (element %d)", ci, off, i)
+			}
+			seen[off] = true
+			h := bufferHeader(l.bufferRegion[off : int(off)+bufferHeaderSize])
+			if i == size-1 {
+				if off != *l.tail {
+					return fmt.Sprintf("free list %d: the chain of %d free slots ends at %d, tail says %d", ci, size, off, *l.tail)
+				}
+				break
+			}
+			if !h.hasNext() {
+				return fmt.Sprintf("free list %d: chain breaks after %d of %d free slots (slot %d has no next)", ci, i+1, size, off)
+			}
+			off = h.nextBufferOffset()
+		}
+	}
+	return ""
+}
+
 func (p *vpPair) free(class int) int { return int(*p.A.bufferManager.lists[class].size) }
 
 // hog allocates buffers of every class until only `leave` allocatable buffers remain per class; returns them.
